@@ -382,7 +382,7 @@ def c07_jit_native_panic(case, params):
 def c07_handler_raises_in_handler(case, params):
     """An error raised by a with-handler handler while another with-handler is active: the stale
     *meta-continuation* of the inner `reset` is invoked (vm.rs set_state_from_continuation panic)."""
-    return (case.get("search") in ("history", "source") and case.get("outcome") == "panic"
+    return (case.get("search") in ("history", "source", "source-jit") and case.get("outcome") == "panic"
             and "Failed to find an open continuation" in case.get("panic", "")
             and case.get("unit_shape") == "nested_handler_raise")
 
@@ -402,7 +402,7 @@ def c07_parser_f15(case, params):
 
 
 def c07_parser_panic(case, params):
-    return (case.get("search") == "source" and case.get("outcome") == "panic"
+    return (case.get("search") in ("source", "source-jit") and case.get("outcome") == "panic"
             and case.get("site_file") in params.get("files", []) and bool(re.search(params.get("msg_re", "."), case.get("site_msg", ""))))
 
 
@@ -738,6 +738,7 @@ def run(ck):
     quick = ck.tier == "quick"
     proved = ck.proof_stage(["c07"], ["c07/Properties_C07"], "c07/Pins_C07.v")
     ck.harness_build(["c07"])
+    model_correspondence(ck, 60 if quick else 600)
     rng = ck.rng
     hist = {}
     distinct = set()
@@ -894,6 +895,8 @@ def run(ck):
         k = kind_of_outcome(o)
         count("source-jit", o)
         k0 = kind_of_outcome(sres[i][0] or {"missing": 1})
+        if k == k0 and k in ("panic", "crash"):
+            continue        # the same failure without the JIT: already reported above
         if k in ("panic", "crash", "missing") or (k == "hang" and k0 != "hang" and k0 != "nonterminating-program"):
             d = describe_source(texts[i][1], o, texts[i][0])
             d["search"] = "source-jit"
@@ -980,6 +983,96 @@ def run(ck):
         json.dump(dump, open(os.environ["C07_DUMP"], "w"), indent=1, default=str)
     if not proved and not ck.violations:
         ck.unproved()
+
+
+# --------------------------------------------------------------------------------------------------
+# correspondence model <-> engine on the unwinding loops: frame / operand stack depth at handler entry
+# --------------------------------------------------------------------------------------------------
+COQ_HEADER = """From Coq Require Import List Arith String.
+From SV Require Import c07.Model_C07.
+Import ListNotations.
+Open Scope string_scope.
+Definition c07_show (n : nat) : string :=
+  match n with 0 => "0" | 1 => "1" | 2 => "2" | 3 => "3" | 4 => "4" | 5 => "5" | _ => "many" end.
+Definition c07_delta (pre post : list op) : string :=
+  match run pre (mkSt [] [] 1 [] []) with
+  | Running s0 =>
+      match run post s0 with
+      | Running s1 => c07_show (List.length (frames s1) - List.length (frames s0)) ++ "," ++
+                      c07_show (List.length (stack s1) - List.length (stack s0)) ++ "," ++ c07_show (List.length (ctxs s1))
+      | Failed _ _ => "failed" | Done _ _ => "done" | Panic => "panic"
+      end
+  | _ => "pre-not-running"
+  end.
+"""
+
+
+def unwind_case(rng):
+    """(steel units, coq expr): a handler installed under k_below plain calls (or directly at top level), an error raised
+    k_above calls above it, optionally through a nested run (transducer callback) at position `nested`."""
+    k_below = rng.choice([-1, 0, 1, 2, 3])      # -1: call-with-exception-handler directly in the top-level expression
+    k_above = rng.choice([0, 1, 2, 3])
+    nested = rng.choice([None, None] + list(range(k_above + 1)))
+    defs = ["(define c07-d-thunk #f) (define c07-d-handler #f)"]
+    # above chain a0 .. a_k ; a_k raises
+    for j in range(k_above, -1, -1):
+        body = "(error \"c07-unwind\")" if j == k_above else "(+ 1 (c07-a%d))" % (j + 1)
+        if nested == j:
+            body = "(+ 1 (car (transduce (list 1) (mapping (lambda (x) %s)) (into-list))))" % body
+        defs.append("(define (c07-a%d) %s)" % (j, body))
+    cweh = ("(call-with-exception-handler (lambda (e) (set! c07-d-handler (#%verif-stack-depth)) 0) "
+            "(lambda () (set! c07-d-thunk (#%verif-stack-depth)) (+ 1 (c07-a0))))")
+    if k_below < 0:
+        top = "(+ 1 %s)" % cweh
+    else:
+        defs.append("(define (c07-h) %s)" % cweh)
+        prev = "c07-h"
+        for i in range(k_below):
+            defs.append("(define (c07-b%d) (+ 1 (%s)))" % (i, prev))
+            prev = "c07-b%d" % i
+        top = "(+ 1 (%s))" % prev
+    units = [" ".join(defs), "(begin %s (list c07-d-thunk c07-d-handler))" % top]
+    pre = []
+    if k_below >= 0:
+        for i in range(k_below + 1):
+            pre += ["OPush 1", "OCall [] None"]
+    else:
+        pre += ["OPush 1"]
+    pre += ["OCall [] (Some 7)"]
+    post = ["OPush 1", "OCall [] None"]          # a0
+    for j in range(k_above + 1):
+        if nested == j:
+            post += ["OPush 1", "ONested", "OPush 1"]
+        if j < k_above:
+            post += ["OPush 1", "OCall [] None"]
+    post += ["ORaise 42"]
+    expr = "c07_delta [%s] [%s]" % ("; ".join(pre), "; ".join(post))
+    return {"k_below": k_below, "k_above": k_above, "nested": nested, "units": units}, expr
+
+
+def model_correspondence(ck, n):
+    cases = [unwind_case(ck.rng) for _ in range(n)]
+    model = ck.coq_eval(COQ_HEADER, [e for _, e in cases])
+    res = run_cases(ck, [c["units"] for c, _ in cases], prelude="", env={"STEEL_JIT": "false"}, fresh=True, batch=10, stall=30)
+    bad = 0
+    for (c, _), m, r in zip(cases, model, res):
+        o = r[1] or {"missing": 1}
+        ck.cov["evaluations"] += 1
+        got = "?"
+        mm = re.match(r"\(\(I(\d+) I(\d+)\) \(I(\d+) I(\d+)\)\)", (o.get("ok") or [""])[-1])
+        if mm:
+            f0, s0, f1, s1 = map(int, mm.groups())
+            got = "%d,%d" % (f1 - f0, s1 - s0)
+        want = ",".join(m.split(",")[:2])
+        if got != want or not m.endswith(",0"):
+            bad += 1
+            ck.violation("model/implementation correspondence broken on the unwinding loop: model (d frames, d operands, nested runs left) = %s, engine = %s"
+                         % (m, got), {"case": dict(c, search="unwind", model=m, engine=o), "correspondence": "c07.Model_C07 raise/unwind vs vm.rs"},
+                         no_input=True, tag="corr")
+    ck.cov["unwind_correspondence_cases"] = len(cases)
+    ck.cov["unwind_correspondence_disagreements"] = bad
+    if cases:
+        ck.sample({"unwind_case": cases[0][0], "model": model[0], "engine": res[0][1]})
 
 
 def load_corpus():
